@@ -114,45 +114,65 @@ def tlc_lines(out, tag):
     return res
 
 
-def run_sharded(driver, cases, shards=None, timeout=3600, tag="run", extra_args=()):
-    """Run `vh <driver> in out` over `cases` split into shards; returns outputs in input order."""
+def run_sharded(driver, cases, shards=None, timeout=3600, tag="run", extra_args=(), case_timeout=60):
+    """Run `vh <driver> in out` over `cases` split into shards; returns outputs in input order.
+    A case that hangs (exit code 3 of the shard, `hang` record) is reported as {"id", "hang": True}
+    and the shard is restarted behind it."""
     ensure_dirs()
     shards = shards or max(1, min(NCPU - 2, len(cases)))
     d = os.path.join(WORK, f"{tag}-{os.getpid()}")
     shutil.rmtree(d, ignore_errors=True)
     os.makedirs(d)
-    procs = []
-    for i in range(shards):
-        part = cases[i::shards]
-        if not part:
-            continue
-        fin = os.path.join(d, f"in{i}.ndjson")
-        fout = os.path.join(d, f"out{i}.ndjson")
+    env = dict(os.environ, VH_CASE_TIMEOUT=str(case_timeout))
+    deadline = time.time() + timeout
+
+    def start(i, part, gen):
+        fin = os.path.join(d, f"in{i}.{gen}.ndjson")
+        fout = os.path.join(d, f"out{i}.{gen}.ndjson")
         with open(fin, "w") as f:
             for c in part:
                 f.write(json.dumps(c) + "\n")
-        p = subprocess.Popen(["timeout", str(timeout), VH, driver, fin, fout] + list(extra_args),
-                             stdout=subprocess.PIPE, stderr=subprocess.STDOUT, text=True)
-        procs.append((i, p, fout, len(part)))
-    outs = {}
-    for i, p, fout, n in procs:
+        open(fout, "w").close()
+        p = subprocess.Popen(["timeout", str(max(10, int(deadline - time.time()))), VH, driver, fin, fout]
+                             + list(extra_args), stdout=subprocess.PIPE, stderr=subprocess.STDOUT,
+                             text=True, env=env)
+        return p, fout
+
+    results = {}
+    pending = []
+    for i in range(shards):
+        part = cases[i::shards]
+        if part:
+            pending.append([i, part, 0, list(range(i, len(cases), shards)), None, None])
+    for job in pending:
+        job[4], job[5] = start(job[0], job[1], job[2])
+    while pending:
+        job = pending.pop(0)
+        i, part, gen, idxs, p, fout = job
         so, _ = p.communicate()
         got = []
-        if os.path.exists(fout):
-            for line in open(fout):
-                line = line.strip()
-                if line:
+        for line in open(fout):
+            line = line.strip()
+            if line:
+                try:
                     got.append(json.loads(line))
-        if p.returncode != 0 or len(got) != n:
+                except Exception:
+                    pass
+        for k, g in enumerate(got[:len(part)]):
+            results[idxs[k]] = g
+        if p.returncode == 3 and got and got[-1].get("hang") and len(got) <= len(part):
+            # restart behind the hung case
+            n = len(got)
+            rest, ridx = part[n:], idxs[n:]
+            if rest:
+                np_, nf = start(i, rest, gen + 1)
+                pending.append([i, rest, gen + 1, ridx, np_, nf])
+            continue
+        if p.returncode != 0 or len(got) != len(part):
             log(so[-3000:])
-            raise ToolError(f"vh {driver} shard {i}: rc={p.returncode}, {len(got)}/{n} results")
-        outs[i] = got
-    res = [None] * len(cases)
-    for i, got in outs.items():
-        for j, g in enumerate(got):
-            res[i + j * shards] = g
+            raise ToolError(f"vh {driver} shard {i}: rc={p.returncode}, {len(got)}/{len(part)} results")
     shutil.rmtree(d, ignore_errors=True)
-    return res
+    return [results[k] for k in range(len(cases))]
 
 
 # ------------------------------------------------------------------ findings / verdicts
